@@ -198,12 +198,66 @@ class Facts:
                             self.callers[name].append((k, bi))
         self.callers = dict(self.callers)
         self.by_crate = dict(self.by_crate)
+        self._bridge()
         try:
             with open(pk + ".tmp%d" % os.getpid(), "wb") as fh:
                 pickle.dump({k: v for k, v in self.__dict__.items() if k != "dir"}, fh, protocol=pickle.HIGHEST_PROTOCOL)
             os.rename(pk + ".tmp%d" % os.getpid(), pk)
         except OSError:
             pass
+
+    def _bridge(self):
+        """`t["bridged"]`: workspace functions a call into upstream generic code (std, third-party) can run - `Iterator::collect` runs
+        `<IteratingReader as Iterator>::next`, `sort` runs `<Input as Ord>::cmp`, `to_string` runs `<Hash as Display>::fmt`. Taken from the
+        instantiated walk, which passes through every upstream generic instantiated with a workspace type, closure or fn item."""
+        self.n_bridged = 0
+        for crate, inst in self.inst.items():
+            memo = {}
+
+            def ext_reach(i0):
+                if i0 in memo:
+                    return memo[i0]
+                out, seen, stack = set(), {i0}, [i0]
+                while stack:
+                    r = inst.get(stack.pop())
+                    if not r:
+                        continue
+                    for e in r["edges"]:
+                        tgt = inst.get(e[2])
+                        if tgt is None or e[2] in seen:
+                            continue
+                        seen.add(e[2])
+                        if tgt.get("ext"):
+                            stack.append(e[2])
+                        else:
+                            out.add(norm(tgt["key"]))
+                memo[i0] = out
+                return out
+            for r in inst.values():
+                if r.get("ext"):
+                    continue
+                k = norm(r["key"])
+                fn = self.fns.get(k)
+                if fn is None:
+                    continue
+                for e in r["edges"]:
+                    tgt = inst.get(e[2])
+                    if tgt is None or not tgt.get("ext") or e[6] not in ("call", "reify"):
+                        continue
+                    bi = e[0]
+                    if bi >= len(fn["blocks"]) or fn["blocks"][bi]["term"]["k"] != "call":
+                        continue
+                    t = fn["blocks"][bi]["term"]
+                    got = {x for x in ext_reach(e[2]) if x in self.fns and x != k}
+                    if got:
+                        cur = set(t.get("bridged", ()))
+                        new = cur | got
+                        if new != cur:
+                            t["bridged"] = sorted(new)
+        for fn in self.fns.values():
+            for b in fn["blocks"]:
+                if b["term"]["k"] == "call":
+                    self.n_bridged += len(b["term"].get("bridged", ()))
 
     # ---------------------------------------------------------------- lookup helpers
     def fn(self, key):
